@@ -289,3 +289,45 @@ End SimpleNF.
 
 Theorem simple_nf_id_gen : forall t, simple_ty t -> forall j, nf_at t j -> norm gen_env false j t = ROk j.
 Proof. intros t Ht. apply (simple_nf_id gen_env); [vm_compute; reflexivity|exact Ht]. Qed.
+
+(* ---------- gob transport (C14): on these field types it changes nothing, provided no payload holds an empty array ---------- *)
+Fixpoint gob_safe (t : fty) (j : json) {struct t} : Prop :=
+  match t with
+  | TAny => no_empty_array (norm_any j) = true
+  | TSlice t' => match j with JArr l => Forall (gob_safe t') l | _ => True end
+  | TMap t' => match j with JObj m => Forall (fun kv => gob_safe t' (snd kv)) m | _ => True end
+  | _ => True
+  end.
+
+Section SimpleGob.
+Variable E : env.
+Hypothesis Hsoa : head_ty E 6 soa = soa.
+
+Lemma norm_slice_g G t l : norm E G (JArr l) (TSlice t) =
+  match lift_list (map (fun x => norm E G x t) l) with
+  | inl (Some vs) => ROk (JArr vs) | inl None => RErr | inr true => RUnsup | inr false => RErr end.
+Proof.
+  cbn [norm head_ty]. replace ((fix go (l0 : list json) : list res := match l0 with [] => [] | x :: r => norm E G x t :: go r end) l)
+    with (map (fun x => norm E G x t) l); [reflexivity|]. induction l as [|x r IH]; [reflexivity|]. cbn [map]. rewrite IH. reflexivity.
+Qed.
+
+Theorem simple_gob_id : forall t, simple_ty t -> forall j, gob_safe t j -> norm E true j t = norm E false j t.
+Proof.
+  intros t Ht. induction Ht; intros j Hs.
+  - destruct j; reflexivity.
+  - destruct j; reflexivity.
+  - destruct j; reflexivity.
+  - destruct j; reflexivity.
+  - (* interface{} *) cbn [gob_safe] in Hs. destruct j; try reflexivity; cbn [norm head_ty any_of]; rewrite (gob_any_id _ Hs); reflexivity.
+  - (* StringOrArray *) unfold soa in *. destruct j as [|b|m e|s|l|m]; cbn [norm]; rewrite ?Hsoa; cbn; reflexivity.
+  - (* slices *) destruct j as [|b|m e|s|l|m]; try reflexivity. rewrite !norm_slice_g. cbn [gob_safe] in Hs.
+    replace (map (fun x => norm E true x t) l) with (map (fun x => norm E false x t) l); [reflexivity|].
+    induction Hs as [|x xs Hx _ IH]; [reflexivity|]. cbn [map]. rewrite IH. rewrite (IHHt x Hx). reflexivity.
+  - (* maps *) destruct j as [|b|m0 e|s|l|m]; try reflexivity. cbn [gob_safe] in Hs. cbn [norm head_ty].
+    generalize (@nil (string * json)) as acc. induction Hs as [|[k v] r Hv _ IH]; intros acc; [reflexivity|].
+    cbn [snd] in Hv. rewrite (IHHt v Hv). destruct (norm E false v t); try reflexivity. apply IH.
+Qed.
+End SimpleGob.
+
+Theorem simple_gob_id_gen : forall t, simple_ty t -> forall j, gob_safe t j -> norm gen_env true j t = norm gen_env false j t.
+Proof. intros t Ht. apply (simple_gob_id gen_env); [vm_compute; reflexivity|exact Ht]. Qed.
